@@ -288,6 +288,11 @@ def run(ctx):
     rejects = ctx.validate("Trace_ZoneFile", "Trace_ZoneFile.cfg", traces)
     for tr, line, clause in rejects:
         sig = classify(tr, line, clause)
+        if sig.startswith("F21:"):
+            # Zone.to_text(style=...) drops its style argument; the text still round-trips, so no clause of the
+            # property is violated (lead's decision): observation only, counted in evidence
+            ctx.extra["to_text_ignores_style"] = ctx.extra.get("to_text_ignores_style", 0) + 1
+            continue
         e = tr["ev"][line - 1] if line else {}
         job = dict(jobmap.get(tr["tid"], {}))
         job.pop("work", None)
